@@ -1,10 +1,12 @@
 #!/bin/sh
-# usage: tools/try_patch.sh <patch.diff> <Cxx> [<Cyy>...]  -- apply to /repo, run quick checks, undo
-patch=$1; shift
-cd /verif || exit 2
-git -C /repo apply "$patch" || { echo "APPLY FAILED"; exit 2; }
+# usage: tools/try_patch.sh <patch.diff> <Cxx> [...]  -- run quick checks against a scratch copy of /repo/src with the patch applied (nothing is written to /repo)
+pt=$1; shift
+tmp=$(mktemp -d /tmp/sa_try_XXXXXX)
+cp -r /repo/src $tmp/src; find $tmp -name __pycache__ -prune -exec rm -rf {} + 2>/dev/null
+(cd $tmp && git apply "$pt") || { echo "APPLY FAILED $pt"; rm -rf $tmp; exit 2; }
+cd /verif
 for p in "$@"; do
-  VERIF_EVIDENCE_DIR=/tmp/try_ev sa/run "$p" > /tmp/try_$p.out 2>&1; rc=$?
-  echo "$p exit=$rc"; grep -E "^VIOLATION|^    rule|ANALYSIS-ERROR" /tmp/try_$p.out | head -40
+  VERIF_REPO=$tmp VERIF_EVIDENCE_DIR=$tmp/ev sa/run "$p" > $tmp/out_$p.txt 2>&1; rc=$?
+  echo "$(basename $(dirname $pt))/$(basename $pt) $p exit=$rc"; grep -E "^    rule|ANALYSIS-ERROR" $tmp/out_$p.txt | head -6 | cut -c1-330
 done
-git -C /repo checkout -- .
+rm -rf $tmp
